@@ -1,7 +1,8 @@
 """
 Dynamic validation of the state translator (gen/gen_state.py, C09): a structural snapshot of everything in the package that
 lives as long as the process -- module-level objects, class attributes, function attributes, default-argument objects, the
-caches of decorator objects, TORRENTFILE_* environment variables, the identity of sys.stdout / sys.stderr -- taken inside the
+caches of decorator objects, TORRENTFILE_* environment variables, the identity of sys.stdout / sys.stderr, the levels and
+disabled flags of the root logger and the package's loggers (key `logging:level`) -- taken inside the
 interpreter that runs a history.  `diff(before, after)` names what an operation changed; every changed entry must be
 explained by a cell of coq/Gen/GenState.v (`covered`), otherwise the translator's cell list is incomplete for behaviour that
 was actually observed.
@@ -97,6 +98,15 @@ def snapshot():
     for k, v in os.environ.items():
         if k.startswith("TORRENTFILE"):
             out[f"environ:{k}"] = v
+    # the configuration of the logging tree that decides isEnabledFor / getEffectiveLevel: the root logger's level, the
+    # process-wide logging.disable threshold, and level / disabled / propagate of every logger of the package (what the
+    # handlers print is benign; whether a level test succeeds is not).  Explained by the cell `logging:level`.
+    import logging
+    lg = {"root": (logging.root.level, logging.root.disabled), "disable": logging.root.manager.disable}
+    for name, obj in sorted(logging.root.manager.loggerDict.items()):
+        if (name == PKG or name.startswith(PKG + ".")) and isinstance(obj, logging.Logger):
+            lg[name] = (obj.level, obj.disabled, obj.propagate)
+    out["logging:level"] = fp(lg)
     out["stream:sys.stdout"] = "real" if sys.stdout is sys.__stdout__ else f"rebound:{type(sys.stdout).__name__}"
     out["stream:sys.stderr"] = "real" if sys.stderr is sys.__stderr__ else f"rebound:{type(sys.stderr).__name__}"
     return out
@@ -127,5 +137,7 @@ def covered(key, cell_names):
         if kind == "environ" and ck == "environ" and (cr == rest or rest.startswith(cr)):
             return True
         if kind == "stream" and c == key:
+            return True
+        if kind == "logging" and ck == "logging":
             return True
     return False
